@@ -1288,7 +1288,7 @@ func c16RunGeneratorHistory(rng *rand.Rand, p c16GParams) (r *c16GRun, fp string
 		r2:        &c16Routed{set: map[protocol.ConnectionID]bool{}},
 		issued:    map[uint64]protocol.ConnectionID{},
 		unretired: map[uint64]bool{0: true},
-		now:       monotime.Time(1_000_000_000),
+		now:       monotime.Now().Add(time.Hour), // ahead of the real clock: code that consults the real clock instead of the time it is given sees nothing as expired
 	}
 	defer func() {
 		if e := recover(); e != nil {
